@@ -717,6 +717,30 @@ def rule_relation_table(ctx, roots, rid="R8.5"):
                 for kw, g in got.items():
                     if g != want and kw not in bad:
                         bad[kw] = "%s treats %r and %r as %s; as JSON values they are %s" % (kw, x, y, "equal" if g else "different", "equal" if want else "different")
+        # uniqueItems on short arrays of mixed kinds: the pair on either side of elements that can be neither hashed nor sorted
+        for a, b in _LONG_PAIRS:
+            want = _json_equal(a, b)
+            for arr in ([a, {"pad": 0}, b], [a, [0], None, b], [{"pad": 0}, a, "s", b], [a, b, {"pad": 0}], [[0], {"p": 1}, a, 2.5, b, None]):
+                n += 1
+                g = errors("uniqueItems", True, arr) > 0
+                if g != want and "uniqueItems" not in bad:
+                    bad["uniqueItems"] = "uniqueItems treats %r and %r as %s in the array %r; as JSON values they are %s" % (
+                        a, b, "equal" if g else "different", arr, "equal" if want else "different")
+        # one Python object standing at several places of the instance (rows built once and reused) is the same JSON text at each
+        row_t, row_o = [True], {"k": [False, 1]}
+        for inst, other, want in (([row_t, row_t], [[True], [True]], True), ([row_t, row_t], [[True], [1]], False), ({"a": row_o, "b": row_o}, {"a": {"k": [False, 1]}, "b": {"k": [False, 1]}}, True),
+                                  ({"a": row_o, "b": row_o}, {"a": {"k": [False, 1]}, "b": {"k": [0, 1]}}, False), ([row_t, [row_t, row_t]], [[True], [[True], [1]]], False)):
+            n += 1
+            got = {"enum": errors("enum", [other], inst) == 0}
+            if "const" in by_kw:
+                got["const"] = errors("const", other, inst) == 0
+            for kw, g in got.items():
+                if g != want and kw not in bad:
+                    bad[kw] = "%s treats %r (one object used at several places) and %r as %s; as JSON values they are %s" % (kw, inst, other, "equal" if g else "different", "equal" if want else "different")
+            n += 1
+            g = errors("uniqueItems", True, [inst, other]) > 0
+            if g != want and "uniqueItems" not in bad:
+                bad["uniqueItems"] = "uniqueItems treats %r (one object used at several places) and %r as %s; as JSON values they are %s" % (inst, other, "equal" if g else "different", "equal" if want else "different")
         # uniqueItems on long arrays: the pair far apart among 70 other, pairwise different elements of one kind (numbers: hashable;
         # one-element arrays: sortable; objects: neither) -- a strategy chosen by length or by element kind decides the same relation
         for a, b in _LONG_PAIRS:
